@@ -494,7 +494,7 @@ func traceConcStore(t *testing.T, o opts) {
 			}
 			floorMu.Unlock()
 		}
-		cu := concUpdater(g, st)
+		cu := concUpdater(g, st) + "\t" + concRegister(g, st, "fresh-watch")
 		// a round whose starter gives up: the caller that merely joined it must not be told the
 		// poll succeeded unless every secret really was brought up to date
 		nilButStale := 0
@@ -706,6 +706,74 @@ func concUpdater(g *gateSvc, st *setec.Store) string {
 	return fmt.Sprintf("cu_stale_get=%d\tcu_final=%d\tcu_cur_closed=%d\tcu_multi_close=%d", stale, final.idx-base, curClosed, multi)
 }
 
+
+// concRegister: three updaters are created at the same moment on a name the store has never
+// heard of (each NewUpdater looks it up; the service holds the request, so all three are inside
+// the lookup together).  All must succeed; after one more install and a completed refresh every
+// one of them - not just the last to register - yields the new version.
+//
+//	cr_fail=   NewUpdater calls that failed
+//	cr_stale=  updaters whose Get yields an older version after the refresh
+func concRegister(g *gateSvc, st *setec.Store, name string) string {
+	g.mu.Lock()
+	g.cur[name] = 1
+	g.mu.Unlock()
+	type built struct{ idx int }
+	upds := make([]*setec.Updater[*built], 3)
+	var wg sync.WaitGroup
+	g.hold.Store(true)
+	for i := range upds {
+		wg.Add(1)
+		go func() {
+			defer wg.Done()
+			defer func() { recover() }()
+			cx, cancel := context.WithTimeout(context.Background(), 20*time.Second)
+			defer cancel()
+			u, err := setec.NewUpdater(cx, st, name, func(b []byte) (*built, error) {
+				_, idx, _ := strings.Cut(string(b), "#")
+				k, err := strconv.Atoi(idx)
+				return &built{idx: k}, err
+			})
+			if err == nil {
+				upds[i] = u
+			}
+		}()
+	}
+	// let all three reach the lookup (one request is held at the gate, the others wait for it)
+	for lim := time.Now().Add(5 * time.Second); g.waiting.Load() == 0 && time.Now().Before(lim); {
+		time.Sleep(time.Millisecond)
+	}
+	time.Sleep(20 * time.Millisecond)
+	g.hold.Store(false)
+	close(g.gate)
+	wg.Wait()
+	g.gate = make(chan struct{})
+	fail, stale := 0, 0
+	for _, u := range upds {
+		if u == nil {
+			fail++
+		}
+	}
+	g.bump(name)
+	if st.Refresh(context.Background()) == nil {
+		for _, u := range upds {
+			if u == nil {
+				continue
+			}
+			func() {
+				defer func() {
+					if recover() != nil {
+						stale++
+					}
+				}()
+				if u.Get().idx < 2 {
+					stale++
+				}
+			}()
+		}
+	}
+	return fmt.Sprintf("cr_fail=%d\tcr_stale=%d", fail, stale)
+}
 
 // slowCache is a synchronised in-memory cache whose writes take a little while (a slow disk):
 // whoever writes outside the store's lock can be overtaken.
